@@ -21,7 +21,16 @@
         BTreeMap    -> usize length, (key, value) pairs in key order; decoding inserts the
                        pairs one by one into a BTreeMap ([mof_list])
         newtype struct (Timestamp, PropertyKey) -> its field
-    Round-trip theorems: Value/ProofsBincode.v ([bincode_roundtrip] in Props_C16).
+    Round-trip lemmas (Value/ProofsBincode.v, all closed under the global context), for reuse:
+      varint_roundtrip_l varint32_roundtrip_l zigzag_roundtrip_l i64_roundtrip_l bool_roundtrip_l
+      f64_roundtrip_l f32_roundtrip_l blob_roundtrip_l str_roundtrip_l
+      dec_many_roundtrip_l / seq_roundtrip_l   (any element codec [e]/[d] with d (e x ++ r) = Some (x, r))
+      mof_list_sorted_l                         (BTreeMap re-insertion of a key-sorted entry list)
+      bincode_roundtrip_l : wf v -> dec_value (enc_value v ++ rest) = Some (v, rest)
+      bincode_roundtrip_fuel_l, decode_from_slice_roundtrip_l, bincode_injective_l (prefix-free)
+    (the same statements are the pinned theorems bincode_* of Props/Props_C16.v).  To encode a
+    struct/enum of the WAL: fields in declaration order, enum variants as [enc_u32 index] first;
+    compose the decoders with [obind] and the lemmas above (take_app for fixed-width fields).
     Definitions only; everything runs under vm_compute. *)
 From GV Require Export Value.Model.
 Open Scope Z_scope.
